@@ -60,6 +60,16 @@ def cases(tier, seed):
                                "second": DT[core.pick(hk + [op, "2nd"], 5)]}
 
 
+    # a coordinate stored in a narrow type (float32 / int32) that is merged
+    # with values needing the wide one, through save_merge_ds
+    for eng in ("h5netcdf", "joblib"):
+        for cdt in ("float32", "int32", "int64"):
+            for name in NAMES[:3]:
+                yield {"op": "merge-widen", "engine": eng, "cdt": cdt,
+                       "name": name, "sizes": [2], "vdt": "float",
+                       "chunks": None}
+
+
 def worker_init():
     import xyzpy  # noqa
 
@@ -164,6 +174,47 @@ def same(loaded, orig, engine):
     return None
 
 
+def check_widen(case):
+    import numpy as np
+    import xarray as xr
+    import xyzpy as xyz
+
+    d = core.fresh_dir("c14")
+    eng = case["engine"]
+    name = os.path.join(d, case["name"])
+    cdt = case["cdt"]
+    vio = []
+
+    def key(sym):
+        return "C14|%s|merge-widen|%s" % (eng, sym)
+
+    a1 = np.array([1, 2], dtype=cdt)
+    # (0.1 has no exact float32 form; 2**40 does not fit an int32)
+    a2 = np.array([0.1, 2.25]) if cdt != "int32" else np.array(
+        [2 ** 40, 7], dtype="int64")
+    ds1 = xr.Dataset({"v": (("a",), np.array([10.0, 20.0]))},
+                     coords={"a": a1})
+    ds2 = xr.Dataset({"v": (("a",), np.array([30.0, 40.0]))},
+                     coords={"a": a2})
+    try:
+        xyz.save_ds(ds1, name, engine=eng)
+        # (through a loaded copy, as a later session would)
+        xyz.save_merge_ds(ds2, name, engine=eng)
+        back = xyz.load_ds(name, engine=eng)
+        want = {float(k_): v_ for k_, v_ in zip(
+            list(a1.tolist()) + list(a2.tolist()), [10.0, 20.0, 30.0, 40.0])}
+        got = {float(k_): float(v_) for k_, v_ in zip(
+            back["a"].values.tolist(), back["v"].values.tolist())}
+        if got != want:
+            vio.append((key("values"), "coordinate stored as %s merged with "
+                        "%r: loaded {label: value} %r, expected %r"
+                        % (cdt, a2.tolist(), got, want)))
+    except Exception as e:
+        vio.append((key("raised:" + type(e).__name__), repr(e)))
+    return {"nontrivial": True, "outcome": "merge-widen:%s" % (
+        "ok" if not vio else "bad"), "violations": vio}
+
+
 def check_case(case):
     import numpy as np
     import xarray as xr
@@ -173,6 +224,8 @@ def check_case(case):
     eng = case["engine"]
     name = os.path.join(d, case["name"])
     os.makedirs(os.path.dirname(name), exist_ok=True)
+    if case["op"] == "merge-widen":
+        return check_widen(case)
     ds = make_ds(case)
     orig = ds.copy(deep=True)
     vio = []
